@@ -27,14 +27,26 @@ CAT_REV = dict((v, k) for k, v in CAT.items())
 PROTO = 'protocolSupportEnumeration="urn:oasis:names:tc:SAML:2.0:protocol"'
 
 
+CATLAYOUT = ['one']
+
+
 def entity_xml(e, src, facts, keys, valid_until=None, evil=False, old=False):
     vu = ' validUntil="%s"' % valid_until if valid_until else ''
     x = '<md:EntityDescriptor %s entityID="%s"%s>' % (env.MD_NS, EID[e], vu)
     if e == 'e2' or (old and e == 'e1'):
-        x += ('<md:Extensions><mdattr:EntityAttributes xmlns:mdattr="urn:oasis:names:tc:SAML:metadata:attribute">'
-              '<saml:Attribute xmlns:saml="%s" Name="http://macedir.org/entity-category" '
-              'NameFormat="urn:oasis:names:tc:SAML:2.0:attrname-format:uri">%s</saml:Attribute></mdattr:EntityAttributes></md:Extensions>'
-              % (sb.NS_SAML, ''.join('<saml:AttributeValue>%s</saml:AttributeValue>' % CAT[c] for c in ('cat1', 'cat2'))))
+        def attr(cs):
+            return ('<saml:Attribute xmlns:saml="%s" Name="http://macedir.org/entity-category" '
+                    'NameFormat="urn:oasis:names:tc:SAML:2.0:attrname-format:uri">%s</saml:Attribute>'
+                    % (sb.NS_SAML, ''.join('<saml:AttributeValue>%s</saml:AttributeValue>' % CAT[c] for c in cs)))
+        ea = '<mdattr:EntityAttributes xmlns:mdattr="urn:oasis:names:tc:SAML:metadata:attribute">%s</mdattr:EntityAttributes>'
+        layout = CATLAYOUT[0] if e == 'e2' else 'one'
+        if layout == 'twoAttributes':
+            inner = ea % (attr(['cat1']) + attr(['cat2']))
+        elif layout == 'twoContainers':
+            inner = ea % attr(['cat1']) + ea % attr(['cat2'])
+        else:
+            inner = ea % attr(['cat1', 'cat2'])
+        x += '<md:Extensions>%s</md:Extensions>' % inner
     for role in ('idpsso', 'spsso', 'attribute_authority'):
         fs = [f for f in facts if f['e'] == e and f['src'] == src and f['role'] == role]
         ks = [k for k in keys if k['e'] == e and k['src'] == src and k['role'] == role]
@@ -71,6 +83,7 @@ def when(v):
 
 def source_a(case, old=False):
     scn = case['scn']
+    CATLAYOUT[0] = scn.get('catLayout', 'one')
     facts, keys = case['facts'], case['keys']
     if old:
         # the earlier content of the same source: other locations, other keys, e1 with categories it no longer has
@@ -269,7 +282,7 @@ def gen_case(case):
             acs.append((GEN_LOC % (k + 1), bmap[e['b']], int(e['idx']) if scn['form'] == 'int' else e['idx']))
     out = {'exc': None, 'doc': None, 'store': None}
     try:
-        enc = {'none': (), 'one': ('kSpEnc1',), 'two': ('kSpEnc1', 'kSpEnc2')}[scn.get('encKeys', 'one')]
+        enc = {'none': (), 'one': ('kSpEnc1',), 'two': ('kSpEnc1', 'kSpEnc2'), 'same': ('kSp',)}[scn.get('encKeys', 'one')]
         top = {'top_additional_cert_files': [env.certfile('kIdp1b')]} if scn.get('extraSign') else {}
         sp = env.make_sp(env.sp_config(enc_keys=enc, endpoints={'assertion_consumer_service': acs}, **top))
         text = str(entity_descriptor(sp.config))
